@@ -123,7 +123,8 @@ func (i *Interpreter) eval(expr ast.Expr, env *environment.Environment, isRepl b
 	case *ast.ObjectLiteral:
 		properties := make(map[string]interface{})
 
-		for key, valueExpr := range e.Properties {
+		for _, key := range e.OrderedKeys() {
+			valueExpr := e.Properties[key]
 			value, signal := i.eval(valueExpr, env, isRepl)
 			if signal.Type != ControlFlowNone {
 				return nil, signal
